@@ -29,8 +29,11 @@ AllBehs == {"resp",            \* returns a Response
             "raiseHttpNB", "returnHttpNB",   \* HTTPException marked non-breaking, raised / returned
             \* requests to a path served by two method-restricted routes (GET-only, POST-only):
             "mGet", "mPost",   \* admitted by the first / the second route
-            "mWrong"}          \* admitted by neither: DispatchState collects the allowed methods, the catch-all answers 405
-MethodBehs == {"mGet", "mPost", "mWrong"}
+            "mWrong",          \* admitted by neither: DispatchState collects the allowed methods, the catch-all answers 405
+            \* requests to a route with a typed binding (/t/<n:int>):
+            "tOk",             \* a valid literal: the route answers
+            "tBad"}            \* a segment the pattern lets through but the conversion rejects ("+ 5"): no match -> 404
+MethodBehs == {"mGet", "mPost", "mWrong", "tOk", "tBad"}
 AllPositions == {"ep", "rn", "rqmwBefore", "rqmwAfter", "epmwBefore", "epmwAfter", "rnmwBefore", "rnmwAfter"}
 
 \* a behaviour is expressible at a position ("ctx" only makes sense for the endpoint)
@@ -64,6 +67,8 @@ Execute ==
                 [] cur.beh = "mGet"  -> [k |-> "resp", own |-> FALSE, brk |-> TRUE, cls |-> "get"]     \* the GET route answered
                 [] cur.beh = "mPost" -> [k |-> "resp", own |-> FALSE, brk |-> TRUE, cls |-> "post"]    \* the POST route answered
                 [] cur.beh = "mWrong" -> [k |-> "http", own |-> FALSE, brk |-> TRUE, cls |-> "405"]    \* MethodNotAllowed from the catch-all
+                [] cur.beh = "tOk"   -> [k |-> "resp", own |-> FALSE, brk |-> TRUE, cls |-> "typed"]
+                [] cur.beh = "tBad"  -> [k |-> "http", own |-> FALSE, brk |-> TRUE, cls |-> "404"]    \* NotFound from the catch-all
                 [] cur.beh = "nonresp"        -> [k |-> "nonresp", own |-> FALSE, brk |-> TRUE, cls |-> "-"]
                 [] cur.beh = "raiseExc"       -> [k |-> "exc", own |-> FALSE, brk |-> TRUE, cls |-> "app"]
                 [] cur.beh \in {"raiseHttpB", "returnHttpB"}   -> [k |-> "http", own |-> TRUE, brk |-> TRUE, cls |-> "-"]
@@ -93,7 +98,7 @@ Caught ==
 
 Classify ==
     /\ pc = "classify"
-    /\ CASE val.k = "resp" -> /\ out' = [k |-> "status", status |-> (IF val.cls \in {"get", "post"} THEN "ok:" \o val.cls ELSE "ok"), exc |-> "-"]
+    /\ CASE val.k = "resp" -> /\ out' = [k |-> "status", status |-> (IF val.cls \in {"get", "post", "typed"} THEN "ok:" \o val.cls ELSE "ok"), exc |-> "-"]
                               /\ pc' = "done" /\ UNCHANGED excs
          [] val.k = "http" /\ val.brk -> pc' = "renderError" /\ UNCHANGED <<out, excs>>
          [] val.k = "http" /\ ~val.brk -> excs' = Append(excs, val) /\ pc' = "nullroute" /\ UNCHANGED out
@@ -106,7 +111,7 @@ NullRoute ==
     /\ pc' = "renderError"
     /\ UNCHANGED <<cfg, hist, cur, excs, out>>
 
-StatusOfVal == IF val.own THEN "own" ELSE IF val.cls = "405" THEN "405" ELSE "500"
+StatusOfVal == IF val.own THEN "own" ELSE IF val.cls \in {"405", "404"} THEN val.cls ELSE "500"
 
 \* route.execute_error(...) with the handler's render_error
 RenderError ==
@@ -139,6 +144,8 @@ Expected(c, b) ==
       [] b = "mGet" -> [k |-> "status", status |-> "ok:get", exc |-> "-"]
       [] b = "mPost" -> [k |-> "status", status |-> "ok:post", exc |-> "-"]
       [] b = "mWrong" -> [k |-> "status", status |-> IF c.re = "other" THEN "otherOrSame:405" ELSE "405", exc |-> "-"]
+      [] b = "tOk" -> [k |-> "status", status |-> "ok:typed", exc |-> "-"]
+      [] b = "tBad" -> [k |-> "status", status |-> IF c.re = "other" THEN "otherOrSame:404" ELSE "404", exc |-> "-"]
       [] b \in {"nonresp", "raiseExc"} ->
            IF c.handler = "reraise" THEN [k |-> "escape", status |-> "-", exc |-> IF b = "nonresp" THEN "TypeError" ELSE "app"]
            ELSE [k |-> "status", status |-> IF c.re = "other" THEN "otherOrSame:500" ELSE "500", exc |-> "-"]
